@@ -2,6 +2,7 @@ package progen
 
 import (
 	"fmt"
+	"math/big"
 	"strings"
 )
 
@@ -191,6 +192,57 @@ func (f *arithFam) Roots() []Program {
 	emit := func(e ex, ds []dest) {
 		for _, d := range ds {
 			p := arithProgram(e, d)
+			if !seen[p.ID] {
+				seen[p.ID] = true
+				out = append(out, p)
+			}
+		}
+	}
+	// Shifts whose count ranges over the whole width of the type, with a named typed constant,
+	// a converted literal or an argument on the left (seeded change C04-4: the C literal of a
+	// base.u64 constant below 2^32 is only 32 bits wide). Both tiers, all four widths.
+	for _, typ := range []string{"u8", "u16", "u32", "u64"} {
+		W := bits(typ)
+		top := new(big.Int).Lsh(big.NewInt(1), uint(W-1))
+		max := new(big.Int).Sub(new(big.Int).Lsh(big.NewInt(1), uint(W)), big.NewInt(1))
+		vals := []string{"1", "0x" + top.Text(16), "0x" + max.Text(16)}
+		if W > 16 {
+			vals = append(vals, "0x8000", "0xFFFF")
+		}
+		if W > 32 {
+			vals = append(vals, "0x8000_0000", "0xFFFF_FFFF", "0x1_0000_0000")
+		}
+		nDecl := fmt.Sprintf("n: base.u32[..= %d]", W-1)
+		for _, v := range vals {
+			lefts := []struct{ decl, text, tag string }{
+				{fmt.Sprintf("pri const K : base.%s = %s\n\n", typ, v), "K", "named-const"},
+				{"", fmt.Sprintf("(%s as base.%s)", v, typ), "converted-literal"},
+			}
+			for _, l := range lefts {
+				for _, op := range []string{">>", "<<", "~mod<<"} {
+					for _, d := range []dest{{"base." + typ, "", typ}, {"base.u64", "base.u64", "as-u64"}} {
+						rhs := l.text + " " + op + " args.n"
+						if d.as != "" {
+							if typ == "u64" {
+								continue
+							}
+							rhs = "(" + rhs + ") as " + d.as
+						}
+						src := l.decl + render("foo", []string{"r : " + d.ftyp},
+							fn{header: "pub func foo.m!(" + nDecl + ")", body: []string{"this.r = " + rhs}})
+						p := mk("arith", src, tags("ops", "fullshift "+op, "dest", d.tag, "type", typ, "left", l.tag+" "+v), nil)
+						if !seen[p.ID] {
+							seen[p.ID] = true
+							out = append(out, p)
+						}
+					}
+				}
+			}
+		}
+		for _, op := range []string{">>", "~mod<<"} {
+			src := render("foo", []string{"r : base." + typ},
+				fn{header: "pub func foo.m!(v: base." + typ + ", " + nDecl + ")", body: []string{"this.r = args.v " + op + " args.n"}})
+			p := mk("arith", src, tags("ops", "fullshift "+op, "dest", typ, "type", typ, "left", "argument"), nil)
 			if !seen[p.ID] {
 				seen[p.ID] = true
 				out = append(out, p)
